@@ -445,3 +445,108 @@ def rule_whole_word(prog, rep, classifier, rid):
                           '%s() compares with %s over a length that does not cover the whole word (%s): abbreviations and the empty '
                           'string are accepted as booleans - the type check then overwrites a word shorter than "1" in place'
                           % (classifier.name, nm, canon(args[2])[:30]))
+
+
+def rule_argflag_shift(prog, rep, rid='B6'):
+    """The per-argument type flags are laid out as QAC_A1_<T> << (k-1) for k = 1..N (N enumerators per type, the next bit is the
+    'all arguments' flag of that type and the next type's group follows a few bits later).  A flag computed as
+    QAC_A1_<T> << (j - 1) is one of the per-argument flags only for j <= N: the must-facts at the shift have to bound j so."""
+    import re as _re
+    from .index import Facts
+    rep.rule(rid, 'a per-argument type flag computed by shifting QAC_A1_<T> stays within the N per-argument flags of that type '
+                  '(the argument index is bounded by N at the shift)')
+    f = prog.need_func('_parse_inline', UNIT)
+    per_type = {}
+    for nm in f.unit.enums:
+        m = _re.match(r'^QAC_A(\d)_(\w+)$', nm)
+        if m:
+            per_type[m.group(2)] = max(per_type.get(m.group(2), 0), int(m.group(1)))
+    facts = None
+    for n in f.cfg.nodes:
+        if not isinstance(n.ast, dict) or n.kind == 'macro':
+            continue
+        for x in walk(n.ast):
+            if x.get('kind') != 'BinaryOperator' or x.get('opcode') != '<<':
+                continue
+            l = strip(children(x)[0])
+            r = (l.get('_ref') or ('',))
+            if l.get('kind') != 'DeclRefExpr' or r[0] != 'enum':
+                continue
+            m = _re.match(r'^QAC_A1_(\w+)$', r[1])
+            if not m or m.group(1) not in per_type:
+                continue
+            N = per_type[m.group(1)]
+            sh = strip(children(x)[1])
+            var, c = None, 0
+            if sh.get('kind') == 'DeclRefExpr':
+                var = canon(sh)
+            elif sh.get('kind') == 'BinaryOperator' and sh.get('opcode') in ('-', '+') and isinstance(int_value(children(sh)[1]), int):
+                var = canon(strip(children(sh)[0]))
+                c = int_value(children(sh)[1]) * (-1 if sh['opcode'] == '-' else 1)
+            if var is None:
+                continue
+            facts = facts or Facts(f)
+            ub = None
+            for (a, op, b, dom) in facts.at(n):
+                if a != var:
+                    continue
+                try:
+                    K = int(b, 0)
+                except ValueError:
+                    continue
+                u = K - 1 if op == '<' else (K if op in ('<=', '==') else None)
+                if u is not None and (ub is None or u < ub):
+                    ub = u
+            rep.instance(rid)
+            ok = ub is not None and ub + c <= N - 1
+            rep.oblige(rid, ok, {'line': x.get('_line'), 'flag': canon(x)[:40], 'index_upper_bound': ub, 'per_argument_flags': N})
+            if not ok:
+                rep.violation(rid, f, x.get('_line'), 'flagshift:%s' % r[1],
+                              '%s: the argument index %s is %s here but only %d per-argument %s flags exist - beyond them the shifted bit '
+                              'lands on the all-arguments flag and then in the next type\'s group, so a correctly typed argument is '
+                              'checked against the wrong type' % (canon(x)[:40], var, ('bounded by %d' % ub) if ub is not None else 'unbounded',
+                                                                 N, m.group(1)))
+
+
+def rule_lineno_reset(prog, rep, rid='B7'):
+    """Error messages name the line: the line counter is per parse.  In the public entry that starts a parse (the function
+    that opens the file and calls the line parser), every path to that call resets the counter first - the parser object can
+    be used for several files."""
+    rep.rule(rid, 'the line counter is reset on every path from the parse entry to the line parser (a parser object parses many files)')
+    inner = prog.need_func('_parse_inline', UNIT)
+    for f in sorted(prog.funcs_in(UNIT), key=lambda x: x.line or 0):
+        if f.body is None or f is inner:
+            continue
+        calls = [n for n in f.cfg.nodes if isinstance(n.ast, dict) and n.kind != 'macro' and any(
+            x.get('kind') == 'CallExpr' and prog.callee_name(x) == inner.name for x in walk(n.ast))]
+        if not calls:
+            continue
+
+        def resets(m):
+            if not isinstance(m.ast, dict) or m.kind == 'macro':
+                return False
+            for x in walk(m.ast):
+                if x.get('kind') == 'BinaryOperator' and x.get('opcode') == '=' and canon(children(x)[0]).endswith('->lineno') \
+                        and int_value(children(x)[1]) == 0:
+                    return True
+                if x.get('kind') == 'CallExpr' and prog.callee_name(x) in ('memset',) and int_value(children(x)[2]) == 0 \
+                        and 'qaconf' in canon(children(x)[1]) and '->' not in canon(children(x)[1]):
+                    return True
+            return False
+        for cn in calls:
+            rep.instance(rid)
+            seen, work, bad = set(), [f.cfg.entry], False
+            while work:
+                m = work.pop()
+                if m.id in seen or resets(m):
+                    continue
+                seen.add(m.id)
+                if m is cn:
+                    bad = True
+                    break
+                for (s_, _l) in m.succs:
+                    work.append(s_)
+            rep.oblige(rid, not bad, {'function': f.name, 'line': cn.line})
+            if bad:
+                rep.violation(rid, f, cn.line, 'lineno-reset', '%s starts the line parser without resetting the line counter: a second '
+                              'parse through the same object reports line numbers that include the lines of the earlier files' % f.name)
